@@ -15,6 +15,7 @@ import json
 import os
 import re
 import shutil
+import time
 
 import vlib
 
@@ -516,9 +517,14 @@ def confirm_with_tool(work, cands, chk, stats, skip, timeouts):
 # ------------------------------------------------------------------------------------------------ the check
 def run(chk):
     tier = chk.tier
+    phase = {}
+    t0 = time.time()
     vlib.build_harness(["gentables", "c10taint"])
+    phase["build_harness"] = round(time.time() - t0, 1); t0 = time.time()
     changed = vlib.gen_tables(["std"])
+    phase["gen_tables"] = round(time.time() - t0, 1); t0 = time.time()
     failed = chk.prove("theories/Properties/C09.v")
+    phase["prove"] = round(time.time() - t0, 1); t0 = time.time()
     work = os.path.join(vlib.BUILD, "c09")
     shutil.rmtree(work, ignore_errors=True)
     os.makedirs(work)
@@ -612,7 +618,9 @@ def run(chk):
                 probes.append((n, p, i))
     stats["probed_entries"] = len(plans)
     stats["probes"] = len(probes)
+    phase["structural"] = round(time.time() - t0, 1); t0 = time.time()
     ran, obs, done, ndir = build_and_run_native(work, probes, chk, stats)
+    phase["native_build_and_run"] = round(time.time() - t0, 1); t0 = time.time()
     stats["probes_completed"] = len(done)
     byn = {x[0]: x for x in ran}
     cands = []
@@ -668,6 +676,8 @@ def run(chk):
             chk.violation(key, "%s: real flow parameter %d -> %s observed natively, absent from the summary; the taint analysis %s"
                           % (fname, i, ("result " if tag[0] == "r" else "argument ") + tag[1:], what), rd)
 
+    phase["tool_confirmation"] = round(time.time() - t0, 1)
+    stats["phase_seconds"] = phase
     chk.proof_broken(failed, found_concrete)
 
     chk.cov["evaluations"] = stats["resolved"] + stats["probes_completed"]
